@@ -539,6 +539,10 @@ def np_sort(interp, args, kwargs):
 def np_all(interp, args, kwargs):
     ctx = interp.ctx
     x = args[0]
+    if isinstance(x, Mat) and "axis" in kwargs and conc(kwargs["axis"].z) == 1 and conc(x.cols) is not None and conc(x.cols) <= 8:
+        src = x.buf.fn
+        cols = conc(x.cols)
+        return Vec(x.rows, lambda i: Bool(z3.And(*[_tz(ctx, src(i, j)) for j in range(cols)])), kind="ndarray", elem="bool")
     if isinstance(x, Bool):
         return x
     if isinstance(x, Vec):
